@@ -1,8 +1,8 @@
 --------------------------- MODULE TraceAuthFlow ---------------------------
 (* Trace validation for C03. One ndjson record per scenario run against a REAL core.Core
    (all servers started in-package from a generated configuration) with real clients
-   (gortsplib, gortmplib, net/http for HLS):
-     id, proto, action, name, cls, cred, user, pass, ip, reload, events, attached
+   (gortsplib, gortmplib, gosrt, net/http for HLS and WHIP/WHEP, the WHIP client, quic-go for MoQ):
+     id, proto, mode, place, action, name, cls, cred, user, pass, ip, reload, events, attached
    events = what the recorder wrapped around the path manager's authManager field saw for this
    scenario's path name (every Authenticate request and its outcome) and the configuration
    reloads the harness made, in order; attached = the client is listed as source / reader of
@@ -21,6 +21,6 @@ TraceSpec == TraceInit /\ [][TraceNext]_<<l, vars>>
 Verdicts == l >= 1 => Monitor(ScenarioOK(Trace[l]), [l |-> l, id |-> Trace[l].id])
 Drift == l >= 1 =>
     LET r == Trace[l] IN
-    (AnswersAgree(r) /\ r.attached = ExpectAttached(r) /\ ReloadsAsExpected(r)) \/ Emit("DRIFT", [l |-> l, id |-> r.id, agree |-> AnswersAgree(r)])
+    (AnswersAgree(r) /\ r.attached = ExpectAttached(r) /\ ReloadsAsExpected(r) /\ AsksAsExpected(r)) \/ Emit("DRIFT", [l |-> l, id |-> r.id, agree |-> AnswersAgree(r)])
 Accepted == TLCGet("stats").diameter - 1 = Len(Trace)
 =============================================================================
